@@ -56,6 +56,7 @@ theorem unvisited_lt (dict : List (Str × Entry)) (visited : List Str) (k : Str)
       simp only [unvisited, List.contains_cons]
       cases visited.contains k' <;> cases (k' == k) <;> simp <;> omega
 
+set_option linter.unusedVariables false in
 /-- `_find_field(name, bib_data, visited)`; `none` = `KeyError` (every `KeyError` raised here is
 caught by the callers as "missing").
 `bibData = none` is `bib_data=None` (the entry API without a database). -/
